@@ -31,6 +31,8 @@ pub trait TemplateRegistry: Sized {
         // register common filters
         tera.register_filter("escape_js", escape_js_filter);
         tera.register_filter("add_types_prefix", add_types_prefix_filter);
+        tera.register_filter("ts_key", ts_key_filter);
+        tera.register_filter("ts_member", ts_member_filter);
 
         // register registry specific templates
         Self::register_templates(&mut tera)?;
@@ -60,6 +62,52 @@ fn escape_js_filter(value: &Value, _args: &HashMap<String, Value>) -> tera::Resu
         Ok(Value::String(escaped))
     } else {
         Err("escape_js filter expects a string".into())
+    }
+}
+
+/// True if `name` can be written as a bare property key / after a dot in TypeScript
+fn is_ts_identifier_name(name: &str) -> bool {
+    // ASCII only: everything else is quoted, which is always valid
+    let mut chars = name.chars();
+    match chars.next() {
+        Some(c) if c == '_' || c == '$' || c.is_ascii_alphabetic() => {}
+        _ => return false,
+    }
+    chars.all(|c| c == '_' || c == '$' || c.is_ascii_alphanumeric())
+}
+
+/// Render a string as a double-quoted JavaScript string literal
+fn js_string_literal(s: &str) -> String {
+    // JSON string syntax is a subset of JavaScript string literal syntax
+    serde_json::to_string(s).unwrap_or_else(|_| format!("\"{}\"", s))
+}
+
+/// Filter for property keys in interfaces and object literals: serde names such as
+/// "user-id" (kebab-case) or "a b" (explicit rename) are not identifiers and must be quoted.
+/// Usage: {{ field.serializedName | ts_key }}
+fn ts_key_filter(value: &Value, _args: &HashMap<String, Value>) -> tera::Result<Value> {
+    if let Some(name) = value.as_str() {
+        if is_ts_identifier_name(name) {
+            Ok(Value::String(name.to_string()))
+        } else {
+            Ok(Value::String(js_string_literal(name)))
+        }
+    } else {
+        Err("ts_key filter expects a string".into())
+    }
+}
+
+/// Filter for member access: `.name` for identifiers, `["na-me"]` otherwise.
+/// Usage: params{{ channel.serializedParameterName | ts_member }}
+fn ts_member_filter(value: &Value, _args: &HashMap<String, Value>) -> tera::Result<Value> {
+    if let Some(name) = value.as_str() {
+        if is_ts_identifier_name(name) {
+            Ok(Value::String(format!(".{}", name)))
+        } else {
+            Ok(Value::String(format!("[{}]", js_string_literal(name))))
+        }
+    } else {
+        Err("ts_member filter expects a string".into())
     }
 }
 
